@@ -1,0 +1,99 @@
+//go:build verif
+// +build verif
+
+package bfe_server
+
+// Hooks for the out-of-tree verification harness of properties C07 / C08 (build tag verif).  Add-only.
+// They build the minimal server objects that clusterInvoke and FinishReq touch (a BfeServer with
+// callbacks, a bal table holding ONE real BalanceGslb, a BfeCluster, the proxy state counters) and
+// install a caller-supplied RoundTripper as the cluster's transport.
+
+import (
+	"fmt"
+	"sync"
+)
+
+import (
+	"github.com/bfenetworks/bfe/bfe_balance"
+	"github.com/bfenetworks/bfe/bfe_balance/bal_gslb"
+	"github.com/bfenetworks/bfe/bfe_basic"
+	"github.com/bfenetworks/bfe/bfe_config/bfe_cluster_conf/cluster_conf"
+	"github.com/bfenetworks/bfe/bfe_config/bfe_cluster_conf/cluster_table_conf"
+	"github.com/bfenetworks/bfe/bfe_config/bfe_cluster_conf/gslb_conf"
+	"github.com/bfenetworks/bfe/bfe_http"
+	"github.com/bfenetworks/bfe/bfe_module"
+	"github.com/bfenetworks/bfe/bfe_route/bfe_cluster"
+)
+
+var verifC07Once sync.Once
+var verifC07Status *ServerStatus
+
+// VerifC07Env is one server + one cluster + its balancer.
+type VerifC07Env struct {
+	srv     *BfeServer
+	cluster *bfe_cluster.BfeCluster
+	Bal     *bal_gslb.BalanceGslb
+}
+
+// VerifC07NewEnv creates the environment.  backends are installed with BackendInit (list order kept).
+func VerifC07NewEnv(name string, conf cluster_conf.ClusterConf, gslb gslb_conf.GslbClusterConf,
+	backends cluster_table_conf.ClusterBackend, rt bfe_http.RoundTripper,
+	forward func(req *bfe_basic.Request) int) (*VerifC07Env, error) {
+	// counters (ProxyState, bal_gslb error state) are process wide; create them once
+	verifC07Once.Do(func() { verifC07Status = NewServerStatus() })
+
+	if err := cluster_conf.ClusterConfCheck(&conf); err != nil {
+		return nil, err
+	}
+
+	srv := new(BfeServer)
+	srv.serverStatus = verifC07Status
+	srv.ReverseProxy = NewReverseProxy(srv, verifC07Status.ProxyState)
+	srv.CallBacks = bfe_module.NewBfeCallbacks()
+	if forward != nil {
+		if err := srv.CallBacks.AddFilter(bfe_module.HandleForward, forward); err != nil {
+			return nil, err
+		}
+	}
+
+	// bal table with one cluster (no health-check conf fetcher: no checker goroutines)
+	srv.balTable = bfe_balance.NewBalTable(nil)
+	clusters := gslb_conf.GslbClustersConf{name: gslb}
+	host, ts, ver := "verif", "0", "0"
+	all := cluster_table_conf.AllClusterBackend{name: cluster_table_conf.ClusterBackend{}}
+	if err := srv.balTable.BalTableReload(gslb_conf.GslbConf{Clusters: &clusters, Hostname: &host, Ts: &ts},
+		cluster_table_conf.ClusterTableConf{Version: &ver, Config: &all}); err != nil {
+		return nil, err
+	}
+	bal, err := srv.balTable.Lookup(name)
+	if err != nil {
+		return nil, err
+	}
+	bal.SetGslbBasic(*conf.GslbBasic)
+	if err := bal.BackendInit(backends); err != nil {
+		return nil, err
+	}
+
+	cluster := bfe_cluster.NewBfeCluster(name)
+	cluster.BasicInit(conf)
+
+	if rt == nil {
+		return nil, fmt.Errorf("nil transport")
+	}
+	srv.ReverseProxy.transports[name] = rt
+
+	return &VerifC07Env{srv: srv, cluster: cluster, Bal: bal}, nil
+}
+
+// ClusterInvoke runs the real clusterInvoke for the request.
+func (e *VerifC07Env) ClusterInvoke(req *bfe_basic.Request) (*bfe_http.Response, int, error) {
+	return e.srv.ReverseProxy.clusterInvoke(e.srv, e.cluster, req, nil)
+}
+
+// FinishReq runs the real FinishReq for the request.
+func (e *VerifC07Env) FinishReq(req *bfe_basic.Request) int {
+	return e.srv.ReverseProxy.FinishReq(nil, req)
+}
+
+// VerifC07CloseAfterReply is the action value clusterInvoke returns for a Finish verdict.
+const VerifC07CloseAfterReply = closeAfterReply
